@@ -20,6 +20,11 @@ import (
 )
 
 var verifDir = "/verif"
+
+// artifactDir is where evidence and replay files are written: /verif, or
+// $VERIF_ARTIFACT_DIR for runs against scratch trees (sensitivity runs) whose
+// output must not overwrite the committed evidence.
+var artifactDir = ""
 var startTime = time.Now()
 
 func logf(f string, a ...interface{}) {
@@ -61,6 +66,10 @@ func main() {
 		verifDir = d
 	} else if self, err := os.Executable(); err == nil {
 		verifDir = filepath.Dir(filepath.Dir(self))
+	}
+	artifactDir = verifDir
+	if d := os.Getenv("VERIF_ARTIFACT_DIR"); d != "" {
+		artifactDir = d
 	}
 	if len(os.Args) < 2 {
 		fmt.Fprintln(os.Stderr, "usage: simcheck check|replay|selftest ...")
